@@ -472,6 +472,7 @@ POPULATIONS = {
     'one': (('A', 'G1', 'L1', 'plain'),),
     'two-shared': (('A', 'G1', 'L1', 'plain'), ('B', 'G1', 'L1', 'plain')),
     'three': (('B', 'G1', 'L1', 'plain'), ('A', 'G1', 'L2', 'plain'), ('C', 'G2', 'L1', 'plain')),
+    'mixed-case': (('b1', 'attic', 'Loft', 'plain'), ('A1', 'Pole', 'den', 'plain'), ('a2', 'Table', 'Loft', 'plain'), ('B2', 'attic', 'Yard', 'plain')),
     'four': (('D', 'G2', 'L2', 'plain'), ('B', 'G1', 'L1', 'plain'), ('A', 'G1', 'L2', 'plain'),
              ('C', 'G2', 'L1', 'plain')),
 }
